@@ -3,5 +3,6 @@ pub mod gen;
 pub mod ids;
 pub mod prog;
 pub mod rules;
+pub mod runtime;
 pub mod states;
 pub mod tick;
